@@ -18,6 +18,34 @@ def load(prop):
 
 
 def run_check(prop, tier, replay=None):
+    scratch = vlib.is_scratch_run()
+    with vlib.TreeLock(exclusive=scratch):
+        try:
+            return run_check_locked(prop, tier, replay)
+        finally:
+            if scratch:
+                # restore the shared generated tables from /repo before anyone else may run
+                env = dict(os.environ)
+                env.pop("TAPKEE_REPO", None)
+                import subprocess
+                subprocess.run([sys.executable, os.path.abspath(__file__), "regen", prop], env=env,
+                               stdout=subprocess.DEVNULL, stderr=subprocess.DEVNULL)
+
+
+def regen(props):
+    """re-run the translate step(s) against vlib.REPO without building or checking anything"""
+    for p in props:
+        mod = load(p)
+        if hasattr(mod, "translate"):
+            ctx = vlib.Ctx(p.upper(), "quick", 1)
+            try:
+                mod.translate(ctx)
+            except Exception as ex:
+                print("translate failed for", p, repr(ex))
+    return 0
+
+
+def run_check_locked(prop, tier, replay=None):
     seed = int(os.environ.get("VERIF_SEED", "1"))
     tier = os.environ.get("VERIF_TIER", tier) if tier not in ("quick", "thorough") else tier
     mod = load(prop)
@@ -152,6 +180,9 @@ def main():
         return setup()
     if a[0] == "baseline_off":
         return baseline_off()
+    if a[0] == "regen":
+        man = json.load(open(os.path.join(vlib.ROOT, "MANIFEST.json")))
+        return regen(a[1:] or [c["property_id"] for c in man["checks"]])
     if a[0] == "replay":
         body = json.load(open(a[1]))
         return run_check(body["property"], body.get("tier", "quick"), replay=body)
